@@ -84,6 +84,7 @@ Definition py_int2 (f : Z -> Z -> Z) (a b : pyval) : pyval :=
 Definition py_add (a b : pyval) : pyval :=
   match a, b with
   | VInt x, VInt y => VInt (x + y)
+  | VStr x, VStr y => VStr (String.append x y)
   | VList x, VList y => VList (x ++ y)
   | VTuple x, VTuple y => VTuple (x ++ y)
   | _, _ => VErr
@@ -197,9 +198,16 @@ Definition py_index (v i : pyval) : pyval :=
 (** [v[k]] for a literal k >= 0 *)
 Definition py_item (v : pyval) (k : nat) : pyval :=
   match v with VTuple l | VList l => nth_opt l k | _ => VErr end.
-(** [v[k:]] for a literal k >= 0 *)
+(** str (a Coq [string]: characters 0..255 only) *)
+Fixpoint str_take (k : nat) (s : string) : string :=
+  match k, s with S k', String c s' => String c (str_take k' s') | _, _ => EmptyString end.
+Fixpoint str_drop (k : nat) (s : string) : string :=
+  match k, s with S k', String _ s' => str_drop k' s' | _, _ => s end.
+(** [v[k:]], [v[:k]] for a literal k >= 0 *)
 Definition py_slice_from (v : pyval) (k : nat) : pyval :=
-  match v with VTuple l => VTuple (skipn k l) | VList l => VList (skipn k l) | _ => VErr end.
+  match v with VTuple l => VTuple (skipn k l) | VList l => VList (skipn k l) | VStr s => VStr (str_drop k s) | _ => VErr end.
+Definition py_slice_to (v : pyval) (k : nat) : pyval :=
+  match v with VTuple l => VTuple (firstn k l) | VList l => VList (firstn k l) | VStr s => VStr (str_take k s) | _ => VErr end.
 (** [l.append(x)], [l.insert(0, x)], [del l[0]] as rebinding of the (uniquely owned) list *)
 Definition py_append (l x : pyval) : pyval :=
   match l with VList xs => if py_ok x then VList (xs ++ [x]) else VErr | _ => VErr end.
